@@ -307,6 +307,9 @@ func genC06(t *rapid.T) *Scenario {
 
 func genC08(t *rapid.T) *Scenario {
 	sc := &Scenario{Prop: "C08", Stage: "unbound", Caps: []int{rapid.IntRange(0, 4).Draw(t, "cap")}}
+	if rapid.IntRange(0, 9).Draw(t, "bigcap") == 0 {
+		sc.Caps[0] = rapid.SampledFrom([]int{8, 16, 64, 250}).Draw(t, "capBig")
+	}
 	sc.Mode = rapid.SampledFrom([]string{"cancel", "cancel", "close"}).Draw(t, "end")
 	n := rapid.IntRange(0, 40).Draw(t, "scriptLen")
 	kinds := []string{"send", "send", "send", "send", "burst", "burst", "burst", "recv", "recv", "recv", "recv", "drain", "drain", "batch", "batch"}
@@ -365,6 +368,9 @@ func genC11(t *rapid.T) *Scenario {
 	sc := &Scenario{Prop: "C11", Stage: rapid.SampledFrom([]string{"emit", "emit", "unfold"}).Draw(t, "stage")}
 	genFunc(t, sc)
 	sc.Caps = []int{rapid.IntRange(0, 4).Draw(t, "cap")}
+	if rapid.IntRange(0, 9).Draw(t, "bigcap") == 0 {
+		sc.Caps[0] = rapid.SampledFrom([]int{8, 16, 64}).Draw(t, "capBig")
+	}
 	sc.Unit = rapid.SampledFrom([]int{1, 1000000, 1000000000}).Draw(t, "unit")
 	sc.Freq = rapid.IntRange(1, 3).Draw(t, "freq")
 	sc.N = rapid.IntRange(1, 14).Draw(t, "values")
@@ -400,10 +406,16 @@ func genC11(t *rapid.T) *Scenario {
 func genC13(t *rapid.T) *Scenario {
 	sc := &Scenario{Prop: "C13", Stage: "throttle"}
 	sc.Ops = rapid.IntRange(1, 5).Draw(t, "ops")
+	if rapid.IntRange(0, 9).Draw(t, "manyOps") == 0 {
+		sc.Ops = rapid.IntRange(6, 12).Draw(t, "opsBig")
+	}
 	sc.Interval = rapid.IntRange(1, 4).Draw(t, "interval")
 	sc.Unit = rapid.SampledFrom([]int{1000000, 1000000000, 7}).Draw(t, "unit")
 	sc.Caps = []int{rapid.IntRange(0, 3).Draw(t, "cap")}
 	n := rapid.IntRange(0, 30).Draw(t, "len")
+	if sc.Ops > 5 {
+		n = rapid.IntRange(2*sc.Ops, 5*sc.Ops).Draw(t, "lenBig")
+	}
 	in := make([]int, n)
 	for i := range in {
 		in[i] = i + 1
@@ -474,6 +486,9 @@ func genForkScript(t *rapid.T, np int, cancel bool, maxLen int) []Move {
 func genC09(t *rapid.T) *Scenario {
 	sc := &Scenario{Prop: "C09", Stage: rapid.SampledFrom(c09Stages).Draw(t, "stage"), Gated: true}
 	sc.Par = rapid.IntRange(1, 6).Draw(t, "par")
+	if rapid.IntRange(0, 11).Draw(t, "manyWorkers") == 0 {
+		sc.Par = rapid.SampledFrom([]int{8, 16, 32}).Draw(t, "parBig")
+	}
 	genFunc(t, sc)
 	in := rapid.SliceOfN(rapid.IntRange(0, 20), 0, 16).Draw(t, "in")
 	sc.In = [][]int{in}
@@ -534,6 +549,9 @@ func genC09(t *rapid.T) *Scenario {
 func genC10(t *rapid.T) *Scenario {
 	sc := &Scenario{Prop: "C10", Stage: "fork.fold", Gated: true, Mode: "pure"}
 	sc.Par = rapid.IntRange(1, 6).Draw(t, "par")
+	if rapid.IntRange(0, 11).Draw(t, "manyWorkers") == 0 {
+		sc.Par = rapid.SampledFrom([]int{8, 16, 32}).Draw(t, "parBig")
+	}
 	sc.Monoid = rapid.IntRange(0, len(cmonoids)-1).Draw(t, "monoid")
 	cm := sc.cm()
 	// length by class: empty, shorter than the worker count, longer
@@ -544,7 +562,7 @@ func genC10(t *rapid.T) *Scenario {
 	case 1:
 		n = rapid.IntRange(0, sc.Par).Draw(t, "n")
 	default:
-		n = rapid.IntRange(sc.Par, 15).Draw(t, "n")
+		n = rapid.IntRange(min(sc.Par, 15), 15).Draw(t, "n")
 	}
 	long := cm.name != "product/1" && rapid.IntRange(0, 5).Draw(t, "long") == 0
 	if long {
